@@ -496,6 +496,16 @@ def e2e(ctx, rng, gs, n_reps):
         except Exception as e:
             ctx.violation("probe: lat-lon vario_estimate raised", repr(e), case, key="vario_estimate:latlon-exception")
             continue
+        if mode == "explicit" and rng.random() < 0.7:
+            # the estimate is a function of the argument VALUES: a second call with the very same argument objects
+            # (bins reused for the next field / time step) must give the enumeration for the original values again
+            try:
+                bc_, g, c = gs.vario_estimate(tuple(pos), f if nf > 1 else f[0], *args, estimator=est, latlon=True, geo_scale=gsc,
+                                              return_counts=True, **kw)
+                case["call"] = "second call with the same argument objects"
+            except Exception as e:
+                ctx.violation("probe: lat-lon vario_estimate raised on a repeated call", repr(e), case, key="vario_estimate:latlon-exception")
+                continue
         bg, bcnt = brute_unstructured(f, edges / gsc, pos, est[0], dist="h")
         ok_bins = len(bc_) == len(edges) - 1 and rel_close(bc_, (edges[:-1] + edges[1:]) / 2)
         if not ok_bins:
